@@ -138,7 +138,9 @@ PartsToString(c) ==
   LET auth == IF c.user # <<>> /\ c.pass # <<>> THEN c.user \o <<58>> \o c.pass \o <<64>>
               ELSE IF c.user # <<>> THEN c.user \o <<64>>
               ELSE IF c.pass # <<>> THEN <<58>> \o c.pass \o <<64>> ELSE <<>>
-      netloc == auth \o JoinWith(c.host, 46) \o (IF c.port # <<>> THEN <<58>> \o c.port ELSE <<>>)
+      h0 == JoinWith(c.host, 46)
+      h1 == IF Has(h0, 58) THEN <<91>> \o h0 \o <<93>> ELSE h0                      \* IPv6 literal: brackets back
+      netloc == auth \o h1 \o (IF c.port # <<>> THEN <<58>> \o c.port ELSE <<>>)
       path == IF c.path = <<47>> /\ c.query = <<>> /\ c.frag = <<>> THEN <<>>
               ELSE IF c.path = <<>> /\ c.scheme # <<>> /\ (c.query # <<>> \/ c.frag # <<>>) THEN <<>> ELSE c.path
       rest == path \o (IF c.query # <<>> THEN <<63>> \o c.query ELSE <<>>) \o (IF c.frag # <<>> THEN <<35>> \o c.frag ELSE <<>>)
